@@ -90,13 +90,25 @@ def mkSI (s : VMState) (calls : List Frame) (mp : Int) (k : Nat) (stk : List SVa
 theorem mkSI_own (s : VMState) (calls : List Frame) (mp : Int) (k : Nat) (stk : List SVal)
     (mem : List (Int × Val)) (out : World) : mkSI s calls mp k stk ⟨mem, itOf s⟩ out = mkS s calls mp k stk mem out := rfl
 
+/-- **The heap invariant** the simulation threads along every run: no object cell has a data field named
+`len` or `push` (on such an object `o.len()` would call the field's value instead of the builtin method). -/
+def HeapInv (h : Array Cell) : Prop :=
+  ∀ (a : Nat) (fs : List (String × Val)), h[a]? = some (Cell.obj fs) → fs.lookup "len" = none ∧ fs.lookup "push" = none
+
 /-- Inside the activation `⟨fn, ·⟩ :: rest` with memory pointer `mp`: from `(ip, stk, mem, out)`
-the VM gets to `(ip', stk', mem', out')` without interrupt or panic. (`fr` is only carried along.) -/
-def Runs (_fr : Bool) (code : Code) (lim : Limits) (s : VMState) (fn : String) (rest : List Frame) (mp : Int)
+the VM gets to `(ip', stk', mem', out')` without interrupt or panic, and the heap invariant is
+kept. (`fr` is only carried along.) -/
+structure Runs (_fr : Bool) (code : Code) (lim : Limits) (s : VMState) (fn : String) (rest : List Frame) (mp : Int)
     (ip : Nat) (stk : List SVal) (mem : Mem) (out : World)
-    (ip' : Nat) (stk' : List SVal) (mem' : Mem) (out' : World) : Prop :=
-  ∀ k, ∃ k', execHN code lim k' (mkSI s (⟨fn, ip⟩ :: rest) mp k stk mem out) =
+    (ip' : Nat) (stk' : List SVal) (mem' : Mem) (out' : World) : Prop where
+  run : ∀ k, ∃ k', execHN code lim k' (mkSI s (⟨fn, ip⟩ :: rest) mp k stk mem out) =
     .next (mkSI s (⟨fn, ip'⟩ :: rest) mp (k + k') stk' mem' out')
+  inv : HeapInv out.heap → HeapInv out'.heap
+
+instance {fr code lim s fn rest mp ip stk mem out ip' stk' mem' out'} :
+    CoeFun (Runs fr code lim s fn rest mp ip stk mem out ip' stk' mem' out')
+      (fun _ => ∀ k, ∃ k', execHN code lim k' (mkSI s (⟨fn, ip⟩ :: rest) mp k stk mem out) =
+        .next (mkSI s (⟨fn, ip'⟩ :: rest) mp (k + k') stk' mem' out')) := ⟨Runs.run⟩
 
 /-- … runs into the fatal interrupt `(kd, msg, sp)` having produced the output `out'`. -/
 def RunsF (code : Code) (lim : Limits) (s : VMState) (fn : String) (rest : List Frame) (mp : Int)
@@ -109,13 +121,13 @@ section
 variable {fr : Bool} {code : Code} {lim : Limits} {s : VMState} {fn : String} {rest : List Frame} {mp : Int}
 
 theorem Runs.refl (ip stk mem out) : Runs fr code lim s fn rest mp ip stk mem out ip stk mem out :=
-  fun _ => ⟨0, rfl⟩
+  ⟨fun _ => ⟨0, rfl⟩, id⟩
 
 theorem Runs.trans {ip stk mem out ip1 stk1 mem1 out1 ip2 stk2 mem2 out2}
     (h1 : Runs fr code lim s fn rest mp ip stk mem out ip1 stk1 mem1 out1)
     (h2 : Runs fr code lim s fn rest mp ip1 stk1 mem1 out1 ip2 stk2 mem2 out2) :
     Runs fr code lim s fn rest mp ip stk mem out ip2 stk2 mem2 out2 := by
-  intro k
+  refine ⟨fun k => ?_, fun h => h2.inv (h1.inv h)⟩
   obtain ⟨k1, e1⟩ := h1 k
   obtain ⟨k2, e2⟩ := h2 (k + k1)
   refine ⟨k1 + k2, ?_⟩
@@ -141,9 +153,9 @@ theorem Runs.cast {ip stk mem out ip' stk' mem' out' ip''}
 table is untouched. -/
 theorem Runs.of_runsTo {ip stk} {mem : Mem} {out ip' stk'} {cells' : List (Int × Val)}
     (h : ∀ it, RunsTo code lim (baseOf (withIt s it) fn rest mp out) ip stk mem.cells ip' stk' cells') :
-    Runs fr code lim s fn rest mp ip stk mem out ip' stk' ⟨cells', mem.it⟩ out := fun k => by
+    Runs fr code lim s fn rest mp ip stk mem out ip' stk' ⟨cells', mem.it⟩ out := ⟨fun k => by
   obtain ⟨k', e⟩ := h mem.it k
-  exact ⟨k', execHN_of_execN code lim k' _ _ e⟩
+  exact ⟨k', execHN_of_execN code lim k' _ _ e⟩, id⟩
 
 theorem RunsF.of_runsFatal {ip stk} {mem : Mem} {out kd msg sp}
     (h : ∀ it, RunsFatal code lim (baseOf (withIt s it) fn rest mp out) ip stk mem.cells kd msg sp) :
@@ -152,11 +164,19 @@ theorem RunsF.of_runsFatal {ip stk} {mem : Mem} {out kd msg sp}
   obtain ⟨k', s', e, h1, _, h3, _⟩ := h mem.it k
   exact ⟨k', s', execHN_of_execN_fatal code lim k' _ _ _ _ _ e, h1, h3⟩
 
-theorem Runs.of_exec1 {ip stk} {mem : Mem} {out ip' stk'} {cells' : List (Int × Val)} {out'}
+theorem Runs.of_exec1 {ip stk} {mem : Mem} {out ip' stk'} {cells' : List (Int × Val)}
     (h : ∀ it k, exec1 code lim (mkS (withIt s it) (⟨fn, ip⟩ :: rest) mp k stk mem.cells out) =
-      .next (mkS (withIt s it) (⟨fn, ip'⟩ :: rest) mp (k + 1) stk' cells' out')) :
+      .next (mkS (withIt s it) (⟨fn, ip'⟩ :: rest) mp (k + 1) stk' cells' out)) :
+    Runs fr code lim s fn rest mp ip stk mem out ip' stk' ⟨cells', mem.it⟩ out :=
+  ⟨fun k => ⟨1, by rw [execHN_one]; exact exec1H_of_next (h mem.it k)⟩, id⟩
+
+/-- A step that changes the world: the heap invariant has to be kept. -/
+theorem Runs.of_exec1W {ip stk} {mem : Mem} {out ip' stk'} {cells' : List (Int × Val)} {out'}
+    (h : ∀ it k, exec1 code lim (mkS (withIt s it) (⟨fn, ip⟩ :: rest) mp k stk mem.cells out) =
+      .next (mkS (withIt s it) (⟨fn, ip'⟩ :: rest) mp (k + 1) stk' cells' out'))
+    (hinv : HeapInv out.heap → HeapInv out'.heap) :
     Runs fr code lim s fn rest mp ip stk mem out ip' stk' ⟨cells', mem.it⟩ out' :=
-  fun k => ⟨1, by rw [execHN_one]; exact exec1H_of_next (h mem.it k)⟩
+  ⟨fun k => ⟨1, by rw [execHN_one]; exact exec1H_of_next (h mem.it k)⟩, hinv⟩
 end
 
 /-- Memory cells up to `b` are the same. -/
